@@ -6,9 +6,9 @@ package model
 import (
 	"fmt"
 
+	"github.com/gogo/protobuf/proto"
 	pb "github.com/ipfs/boxo/ipld/unixfs/pb"
 	"github.com/ipfs/go-cid"
-	"github.com/gogo/protobuf/proto"
 	"google.golang.org/protobuf/encoding/protowire"
 
 	"verif/harness/store"
